@@ -845,3 +845,46 @@ def cfg_program(rng, trap_bias=0.35):
             return super().value(b, scope)
 
     return Cfg14(rng).func("main")
+
+
+# ------------------------------------------------------------------------------------------- exhaustive float grid
+GRID = {
+    "f32": ["0.0", "-0.0", "1.0", "-1.0", "2.0", "0.5", "0.1", "-3.5", "3.4028235e+38", "-3.4028235e+38", "1.0e-45",
+            "-1.0e-45", "1.17549435e-38", "16777217.0", "1.0e+30", "1.0e-30", "0x7F800000", "0xFF800000", "0x7FC00000",
+            "0xFFC00000", "0x7FC00001", "0x7FA00000"],
+    "f64": ["0.0", "-0.0", "1.0", "-1.0", "2.0", "0.5", "0.1", "-3.5", "1.7976931348623157e+308",
+            "-1.7976931348623157e+308", "5.0e-324", "-5.0e-324", "2.2250738585072014e-308", "9007199254740993.0",
+            "1.0e+300", "1.0e-300", "0x7FF0000000000000", "0xFFF0000000000000", "0x7FF8000000000000",
+            "0xFFF8000000000000", "0x7FF8000000000001", "0x7FF4000000000000"],
+}
+GRID_BIN = ["addf", "subf", "mulf", "divf", "maximumf", "minimumf", "maxnumf", "minnumf"]
+
+
+def float_grid_programs(t, rows_per_program=6):
+    """Deterministic directed programs: for every float binary op and every cmpf predicate, EVERY ordered pair of the
+    boundary constants of type t (signed zeros, +-1, max, min subnormal, +-inf, quiet/negative/payload/signalling
+    NaNs, values needing rounding) as constant-constant operands; all results go to poison-tolerant sinks, so each
+    folded constant is observed bit-exactly. Returns [(label, text)]."""
+    vals = GRID[t]
+    ops = [("arith." + o, t) for o in GRID_BIN] + [("arith.cmpf " + p + ",", "i1") for p in FPRED]
+    out = []
+    for opn, rt in ops:
+        for r0 in range(0, len(vals), rows_per_program):
+            lines, n = [], 0
+            cs = []
+            for lit in vals:
+                n += 1
+                lines.append(f"  %c{n} = arith.constant {lit} : {t}")
+                cs.append(f"%c{n}")
+            res = []
+            for i in range(r0, min(r0 + rows_per_program, len(vals))):
+                for j in range(len(vals)):
+                    n += 1
+                    lines.append(f"  %r{n} = {opn} {cs[i]}, {cs[j]} : {t}")
+                    res.append(f"%r{n}")
+            for k in range(0, len(res), 22):
+                chunk = res[k:k + 22]
+                lines.append(f'  "test.op"({", ".join(chunk)}) {{c14.sink}} : ({", ".join(rt for _ in chunk)}) -> ()')
+            text = (f"func.func @main() -> ({rt}) {{\n" + "\n".join(lines) + f"\n  func.return {res[0]} : {rt}\n}}\n")
+            out.append((f"{opn.split()[0]}{'/' + opn.split()[1].rstrip(',') if ' ' in opn else ''}:{t}:rows{r0}", text))
+    return out
